@@ -53,7 +53,12 @@ def runCache (r : Report) (s : Section) : Report := Id.run do
           r.violation s.idx l.idx s!"struct=cache op=[{joinSp l.op}] expiry {nsI} outside [0.95,1.05]*{base}" else r
       if 20 * ns ≤ 19 * base + 20 then r.addCover "cache-jitter-low-end"
       else if 20 * ns + 20 ≥ 21 * base then r.addCover "cache-jitter-high-end" else r
-    match l.op with
+    -- `setd k v rand` = Cache.Set: SetWithExpire with the configured default expiry
+    let lop := match l.op with
+      | ["setd", k, v, j] => ["set", k, v, toString expireI, j]
+      | op => op
+    if l.op.head? = some "setd" then r := r.addCover "cache-set-default-expiry"
+    match lop with
     | ["set", k, v, e, _] =>
       match k.toNat?, v.toNat?, e.toInt? with
       | some k, some v, some e =>
@@ -120,7 +125,7 @@ def runCache (r : Report) (s : Section) : Report := Id.run do
       c := c'; a := a'
     | ["st"] =>
       r := r.addCover "cache-st"
-      let fmt := fun (n : Nat) (lru : List Nat) (t : Nat) => s!"size={n} lru={keysS (if limit = 0 then [] else lru)} timers={t} hit={hit} miss={miss}"
+      let fmt := fun (n : Nat) (lru : List Nat) (t : Nat) => s!"size={n} lru={keysS (if limit = 0 then [] else lru)} timers={t} hit={hit} miss={miss} cb={n}"
       r := judge r (fmt c.data.length c.lru c.timers.entries.length) (fmt a.data.length a.lru a.timers.length)
       -- the property's words: never more than `limit` entries
       if limit > 0 ∧ kvNat obs "size" 0 > limit then
